@@ -31,6 +31,9 @@ Scenarios ==
   {With("encCert", k) : k \in CertKinds \ {"good"}} \cup
   {With("signKey", "wrong"), With("encKey", "wrong")} \cup
   {With("ske", k) : k \in {"omitted", "otherrandoms", "otherenccert", "badsig"}} \cup
+  \* a recorded ServerKeyExchange replayed in a session that shares ONE of the two randoms with the recorded one (the
+  \* attacker picks its own server random; a client may be fed a repeating random source): the signature covers both
+  {With2("signKey", "wrong", "ske", k) : k \in {"same_server_random", "same_client_random"}} \cup
   \* the attacker of the statement: holds the encryption key but not the signing key, and omits / replays the SKE
   {With2("signKey", "wrong", "ske", k) : k \in {"omitted", "otherrandoms"}} \cup
   \* verification switched off: possession of the keys must still be proven
@@ -38,6 +41,9 @@ Scenarios ==
    [With("verify", FALSE) EXCEPT !.signKey = "wrong", !.ske = "omitted"]} \cup
   {[CA EXCEPT !.cliCert = k] : k \in {"untrusted", "expired", "notyet"}} \cup
   {[CA EXCEPT !.cliKey = "wrong"], [CA EXCEPT !.cv = "othersession"]} \cup
+  \* the client sends further certificates after its own: harmless with its own key, but possession must be proven
+  \* for the FIRST certificate (the identity the server reports), not for any later one
+  {[CA EXCEPT !.cliCert = "good_then_other"], [CA EXCEPT !.cliCert = "good_then_other", !.cliKey = "of_other"]} \cup
   {With("mitm", m) : m \in {"ch_random", "ch_suites", "ch_session", "sh_random", "sh_suite", "sh_session",
                              "cert_swap", "cert_bit", "ske_bit", "cke_bit"}} \cup
   {[CA EXCEPT !.mitm = m] : m \in {"creq_bit", "ccert_bit", "cv_bit"}} \cup
@@ -69,7 +75,7 @@ SkeOK == /\ s.ske = "honest" /\ s.signKey = "right"
 \* 3. server: the pre-master secret opens with the encryption key
 PmsOK == s.encKey = "right" /\ s.mitm # "cke_bit"
 \* 4. server (client auth required and verified): chain, validity, CertificateVerify over this transcript
-ClientAuthOK == ~s.cauth \/ (/\ s.cliCert = "good" /\ s.cliKey = "right" /\ s.cv = "honest"
+ClientAuthOK == ~s.cauth \/ (/\ s.cliCert \in {"good", "good_then_other"} /\ s.cliKey = "right" /\ s.cv = "honest"
                                 /\ s.mitm \notin {"ccert_bit", "cv_bit"}
                                 /\ Views[1] = Views[2])           \* the signature covers the transcript as the client saw it
 \* 5. Finished: each side's verify_data covers its own view; they match iff the views are equal and the master secret is shared
@@ -90,7 +96,7 @@ Done == step = 6
 \* this session; with verification on, only under acceptable certificates
 AuthServer == (Done /\ pcC = "complete") => /\ s.signKey = "right" /\ s.encKey = "right" /\ s.ske = "honest"
                                             /\ (s.verify => s.signCert = "good" /\ s.encCert = "good")
-AuthClient == (Done /\ pcS = "complete" /\ s.cauth) => s.cliCert = "good" /\ s.cliKey = "right" /\ s.cv = "honest"
+AuthClient == (Done /\ pcS = "complete" /\ s.cauth) => s.cliCert \in {"good", "good_then_other"} /\ s.cliKey = "right" /\ s.cv = "honest"
 \* Agreement: never both complete with different views
 Agreement == (Done /\ pcC = "complete" /\ pcS = "complete") => Views[1] = Views[2]
 HonestCompletes == (Done /\ s \in {Honest, CA, With("verify", FALSE)}) => pcC = "complete" /\ pcS = "complete"
